@@ -1750,7 +1750,7 @@ def pyIndex {α : Type} (values : List α) (i : Nat) : Except PyErr α :=
 
 GROUP_OF = {
     'get_valid_classes': 'classes', 'get_multiplicity': 'classes', 'make_empty_bases': 'dicts', 'get_classification': 'dicts',
-    'get_values_and_class': 'dicts',
+    'get_values_and_class': 'dicts', 'get_values': 'dicts',
     'get_const_period': 'simplify', '_get_const_period': 'simplify', 'is_constant': 'simplify', 'is_repeating': 'simplify', 'simplify': 'simplify',
     'meta_valid': 'lookup', 'get_meta_index': 'lookup', 'get_meta': 'lookup',
     'check_valid': 'valid',
@@ -2479,6 +2479,16 @@ def translate():
         tr.opt_params = {'classification'}
         emit('get_values_and_class', '{α : Type} (self_shape : List Nat) (d : KeyDict α) : Except PyErr (Option (Cls × List α))', g.body, tr,
              '`DcmMetaExtension.get_values_and_class` (dcmmeta.py) for one key')
+        gv = find_func(dm, 'DcmMetaExtension', 'get_values')
+        if gv is None:
+            missing.append('get_values: not found')
+        else:
+            tr = Tr({'self.get_class_dict(classification)[key]': '(← KeyDict.get d classification)'},
+                    {'self.get_classification(key)': 'get_classification self_shape d'})
+            tr.opt_params = {'classification'}
+            tr.ret_optional = True
+            emit('get_values', '{α : Type} (self_shape : List Nat) (d : KeyDict α) : Except PyErr (Option (List α))', gv.body, tr,
+                 '`DcmMetaExtension.get_values` (dcmmeta.py) for one key')
     # ---- DicomStack.to_nifti: repetition time and dim_info (group `header`)
     f = find_func(ds, 'DicomStack', 'to_nifti')
     blk = None
